@@ -264,7 +264,7 @@ PROPS = {
         assumptions=["short writes other than the one before a file-size limit, EINTR and Ok(0) are covered by the theorem only, not injected"]),
     "C13": dict(
         module="FastQr.Props.C13", level="other", partial=True,
-        key=lambda t: ("pix", t[4], tuple(x for x in t[6].split(";") if x.startswith(("m:", "s:"))), t[7] != "-", t[8] != "-", t[6].split("bc:")[-1][-2:]) if len(t) > 9 else None,
+        key=lambda t: (("pixh", t[4], tuple(x[0] for x in t[7].split(";"))) if t[0] == "pixh" else ("pix", t[4], tuple(x for x in t[6].split(";") if x.startswith(("m:", "s:"))), t[7] != "-", t[8] != "-", t[6].split("bc:")[-1][-2:])) if len(t) > 9 else None,
         missing=["the rasteriser (resvg/usvg/tiny-skia), anti-aliasing, colour conversion and the PNG codec are external and not modelled"],
         rule="cases: real ImageBuilder::to_pixmap / to_bytes: versions (quick 1, 2, 7; thorough all 40) x 6 shapes x margins "
              "{0,1,4,7} x fits {original, width 4x, height 5x, both, 2x/3x, non-integer >= 4 px/module} x 4 colour pairs incl. "
